@@ -270,7 +270,7 @@ func (pf *Profile) genBlock(t *rapid.T) BlockSpec {
 	if pf.BigBlocks && pct(t, 60, "big") {
 		ns = rng(t, min(3, pf.MaxSeqs), pf.MaxSeqs, "nSeqsBig")
 	}
-	b.Concurrency = pick(t, []int{0, 1, 1, 2, 2, 2, 3, 3, ns + 1, -1, -5, 64}, "conc") // < 1 means unset (1)
+	b.Concurrency = pick(t, []int{0, 1, 1, 2, 2, 2, 3, 3, ns + 1, -1, -5, 64}, "conc")           // < 1 means unset (1)
 	b.Tolerated = pick(t, []int{0, 0, 0, 0, 1, 1, 2, -1, -1, -2, -1000, -2147483648, ns}, "tol") // "a negative value allows all"
 	if pct(t, pf.PDelay, "delays") {
 		b.EntranceDelayUs = pick(t, []int{0, 1000, 300, -1000}, "entrance")
@@ -403,3 +403,9 @@ func GenAPIHistory(t *rapid.T) APIHistory {
 	}
 	return h
 }
+
+// Pct and Rng export the unbiased draws (fair coins underneath) to the generators of the other packages: positions in a
+// write log, ages and one-in-n choices must not inherit the small-value bias of rapid's integer generators (measured:
+// rapid.IntRange(0,1000) lands in the first decile 60 % of the time).
+func Pct(t *rapid.T, p int, label string) bool     { return pct(t, p, label) }
+func Rng(t *rapid.T, lo, hi int, label string) int { return rng(t, lo, hi, label) }
